@@ -450,7 +450,7 @@ func runC10(w *W) {
 	// valid documents: fresh
 	scale := 2
 	if th {
-		scale = 30
+		scale = 80
 	}
 	w.eachValidDoc(scale, func(g string, doc []byte) {
 		if len(doc) > 2<<20 {
@@ -462,7 +462,7 @@ func runC10(w *W) {
 	// after edit histories
 	n := 5000
 	if th {
-		n = 120000
+		n = 400000
 	}
 	w.editDocs(n, func(g string, doc []byte, k int) {
 		w.c10Judge(st, g, doc, false, next(), 1+k%6)
